@@ -188,8 +188,26 @@ def _doc(s):
     return s.replace('-/', '- /').replace('/-', '/ -')
 
 
+def finditer_guard(data):
+    """Every regex the model hands to `RTV.Re.findAll` — the family members (`matchesOf`), `_negative_number_terms`
+    (`negSpan`), the VALUE regexes of `ambiguity_filters_dict` (`ambMatches`; the keys are only searched) — must be
+    `finditer_safe`: not able to match the empty string, or the empty pattern itself (the value `''` of the Spanish /
+    French / Portuguese / Italian / Dutch filters).  See RTV/Lemmas/ReNullable.lean."""
+    null = []
+    for lang in data:
+        for mode, d in data[lang].items():
+            null += ['%s/%s regexes[%d]' % (lang, mode, e['idx']) for e in d['entries'] if 'ast' in e and R.nullable(e['ast'])]
+            if d['negAst'] is not None and R.nullable(d['negAst']):
+                null.append('%s/%s _negative_number_terms' % (lang, mode))
+            null += ['%s/%s ambiguity value %d' % (lang, mode, i) for i, (_, v) in enumerate(d['ambAst'])
+                     if not R.finditer_safe(v)]
+    if null:
+        raise ValueError(R.NULLABLE_MSG % ('numregex', ', '.join(null)))
+
+
 def generate():
     data = classified()
+    finditer_guard(data)
     src = "the number extractor objects of the working tree (regex %s)" % regex.__version__
     files = []
     index_rows = []
@@ -231,6 +249,12 @@ def generate():
         idx += 'def %s%sExt : Ext := ⟨%s%s, %s%sTags, %s%sNeg, %s%sAmb⟩\n' % ((lang, mname) * 5)
     idx += '\ndef allExt : List (String × Ext) := [\n' + ',\n'.join(
         '  ("%s/%s", %s%sExt)' % (lang, mname, lang, mname) for lang, mname in index_rows) + ']\n\n'
+    idx += ('/-- Every regex `RTV.NumExtract` hands to `RTV.Re.findAll` (family members, `_negative_number_terms`, the value\n'
+            'regexes of `ambiguity_filters_dict`) cannot match the empty string, or is the empty pattern: on each of them\n'
+            '`findAll` is the `finditer` of `regex` (`findAll_eq_findAllPy`, RTV/Lemmas/ReNullable.lean). -/\n'
+            'theorem allExt_finditer_safe : (allExt.all fun e => e.2.fam.all (fun p => !nullable p.2) &&\n'
+            '    (match e.2.neg with | some r => !nullable r | none => true) &&\n'
+            '    e.2.amb.all (fun kv => !nullable kv.2 || decide (kv.2 = RE.eps))) = true := by decide +kernel\n\n')
     idx += '/-- culture -> (extractor language, grouping mark, decimal mark) -/\n'
     idx += 'def cultures : List (String × String × Nat × Nat) := [\n' + ',\n'.join(
         '  ("%s", "%s", %d, %d)' % (c, l, ord(g), ord(dm)) for c, l, g, dm in CULTURES) + ']\n\n'
